@@ -14,10 +14,15 @@ ALLOWED_AXIOMS = ()
 RULE = ('one case = one Configurator (2-10 add_view calls: context in class tree A>B>C / interface / unrelated / none, '
         'view name, global or route-bound with and without use_global_views, 0-3 predicates drawn from every built-in '
         'incl. accept, custom, third-party and not_, occasional same-phash re-registrations and secured views) x 10-20 '
-        'requests through Router.__call__, each sent at a chosen moment of the commit history (warm lookup cache) and compared with the model on the registrations committed so far; non-trivial = the case has >= 3 registrations, at least one request on which '
+        'requests through Router.__call__ (30 % of the cases on a tree whose root is named None, 8 % of the bodies raise HTTPNotFound '
+        'themselves, the security policy\'s identity() independent of authenticated_userid(), 40 % of the cases with a second '
+        'application alive in the process that is asked first in the last phase), each sent at a chosen moment of the commit history (warm lookup cache) and compared with the model on the registrations committed so far; non-trivial = the case has >= 3 registrations, at least one request on which '
         'a view body ran after the lookup had at least two name-matching registrations in range, and at least one request '
         'that ended in Not Found or ran a different body; distinct by full case')
 ASSUMPTIONS = [
+    'the lookup is a function of the registrations of its own registry and of the request: the model keeps no state across '
+    'calls or between registries (tied by exact class-level statement lists of Registry / Request / Router / MultiView / the '
+    'predicate classes, pins of Registry.__init__ / _clear_view_lookup_cache, and two-application histories)',
     'zope.interface resolution orders (request_iface.__sro__, providedBy(context).__sro__) are oracle inputs, assumed duplicate-free',
     'adapters.registered/registerAdapter/unregister behave as an exact-key map on (classifier, request iface, context iface, provided, name)',
     'WebOb: request.params.get, request.headers.get, Accept.parse_offer are oracle inputs; acceptable_offers(list) is modelled as '
@@ -173,6 +178,7 @@ def gen_request(rng, case):
     return tidx, {'method': method, 'qs': qs, 'post': post, 'headers': headers, 'xhr': rng.random() < 0.35,
             'accept': rng.choice(ACCEPT_HEADERS), 'route': route, 'mp': rng.choice(['1', '1', '2', ' 1']),
             'path': rng.choice(CTX_PATHS[target['ctx']] if aimed else PATHS), 'vname': vname, 'user': rng.random() < 0.4,
+            'ident': rng.random() < 0.4,
             'truth': sorted(rng.sample(range(10), rng.choice([0, 2, 4, 5, 7, 10])))}
 
 
@@ -232,7 +238,7 @@ def gen_case(rng):
     if rng.random() < 0.5:                        # else: 1-3 explicit commits
         commits = sorted(need | set(rng.sample(range(nv), rng.choice([0, 1, 2]))))
     case = {'routes': routes, 'third': third, 'views': views, 'commits': commits, 'requests': [],
-            'rootnone': rng.random() < 0.3}
+            'rootnone': rng.random() < 0.3, 'twoapps': rng.random() < 0.4}
     points = _points(case)
     for _ in range(rng.choice([10, 12, 14])):
         tidx, r = gen_request(rng, case)
@@ -260,7 +266,7 @@ def generate(rng, tier, n):
 
 def valid(case):
     try:
-        if not isinstance(case, dict) or set(case) - {'rootnone'} != {'routes', 'third', 'views', 'requests', 'commits'}:
+        if not isinstance(case, dict) or set(case) - {'rootnone', 'twoapps'} != {'routes', 'third', 'views', 'requests', 'commits'}:
             return False
         if not case['views'] or not case['requests']:
             return False
@@ -350,6 +356,8 @@ def shrinks(case):
         yield dict(case, commits=None)
     if case.get('rootnone'):
         yield dict(case, rootnone=False)
+    if case.get('twoapps'):
+        yield dict(case, twoapps=False)
     n = len(case['views'])
     for i, r in enumerate(case['requests']):
         if _after(r, n) != n:
@@ -365,8 +373,8 @@ def shrinks(case):
                 yield dict(case, views=case['views'][:i] + [dict(v, **{k: simple})] + case['views'][i + 1:])
     for i, r in enumerate(case['requests']):
         for k, simple in (('qs', []), ('post', []), ('headers', []), ('xhr', False), ('accept', None), ('route', None),
-                          ('user', False), ('truth', []), ('path', []), ('method', 'GET'), ('mp', '1')):
-            if r[k] != simple:
+                          ('user', False), ('ident', False), ('truth', []), ('path', []), ('method', 'GET'), ('mp', '1')):
+            if r.get(k, simple) != simple:
                 yield dict(case, requests=case['requests'][:i] + [dict(r, **{k: simple})] + case['requests'][i + 1:])
     if case['third'] and not any(n in v['preds'] for v in case['views'] for n in ('zthird', 'ythird')):
         yield dict(case, third=False)
@@ -469,8 +477,8 @@ def setup(tier):
             return self.i in request.environ['c03.truth']
 
     class Policy:
-        def identity(self, request):
-            return request.environ.get('c03.user')
+        def identity(self, request):          # deliberately independent of authenticated_userid (a guest record / a
+            return request.environ.get('c03.ident')   # suspended account): is_authenticated is about the userid only
 
         def authenticated_userid(self, request):
             return request.environ.get('c03.user')
@@ -510,6 +518,29 @@ class World:
         if self.conflict:                 # a batch held two views with one discriminator: replay one commit per add_view
             self._build(case, False)
 
+    def _shadow(self, case):
+        """a second application alive in the same process, configured completely before the first request: the same
+        contexts and view names, other bodies (tag 'shadow'), its own Not Found view; requests of the last phase are sent
+        to it first, then to the application under test (state shared between registries would leak its views)"""
+        P = _P
+        the_root = P['root_none' if case.get('rootnone') else 'root']
+        cfg = P['Configurator'](autocommit=True, root_factory=lambda request: the_root)
+        cfg.set_security_policy(P['Policy']())
+
+        def shadow_body(context, request):
+            resp = P['Response']('shadow')
+            resp.headers['X-Tag'] = 'shadow'
+            return resp
+
+        def shadow_nf(request):
+            resp = P['Response']('shadow-nf')
+            resp.headers['X-Tag'] = 'shadow-nf'
+            return resp
+        cfg.add_notfound_view(shadow_nf)
+        for ctx, name in sorted({(v['ctx'], v['name']) for v in case['views']}, key=repr):
+            cfg.add_view(shadow_body, context=None if ctx is None else P['classes'][ctx], name=name)
+        return cfg.make_wsgi_app()
+
     def _send(self, k, final=False):
         """send the requests waiting for exactly k committed registrations (all the remaining ones when final)"""
         if not self.serve:
@@ -524,6 +555,7 @@ class World:
         self.made, self.failed, self.conflict = {}, set(), False
         self.results = [None] * len(case['requests'])
         world = self
+        self.shadow_app = self._shadow(case) if case.get('twoapps') else None
         the_root = P['root_none' if case.get('rootnone') else 'root']
         cfg = P['Configurator'](autocommit=not batched, root_factory=lambda request: the_root)
         cfg.set_security_policy(P['Policy']())
@@ -671,6 +703,8 @@ class World:
         req.environ['c03.log'] = []
         if r['user']:
             req.environ['c03.user'] = 'bob'
+        if r.get('ident', r['user']):
+            req.environ['c03.ident'] = {'record': 'guest-or-bob'}
         return req
 
     def oracle(self, r):
@@ -721,9 +755,13 @@ class World:
                 rx, accq, sorted(r['truth']), rsro, csro, r['vname']]
 
     def run(self, r):
+        if self.shadow_app is not None and _after(r, len(self.case['views'])) == len(self.case['views']):
+            self.environ(r).get_response(self.shadow_app)          # the other application is asked first
         req = self.environ(r)
         resp = req.get_response(self.app)
         tag = resp.headers.get('X-Tag')
+        if tag is not None and tag.startswith('shadow'):
+            return ['VIEW-OF-ANOTHER-APPLICATION-RAN', tag]
         log = req.environ['c03.log']
         if tag is None:
             return ['ODD', resp.status_int]
@@ -930,6 +968,10 @@ def kinds(case, obs):
         k.append('cfg:use_global_views')
     if case.get('rootnone'):
         k.append('cfg:root-named-None')
+    if case.get('twoapps'):
+        k.append('cfg:two-applications-interleaved')
+    if any(r.get('ident', r['user']) != r['user'] for r in case['requests']):
+        k.append('cfg:identity-differs-from-userid')
     k.append('cfg:autocommit' if case['commits'] is None else 'cfg:commits%d' % (len(case['commits']) + 1))
     vs = case['views']
     for i in range(len(vs)):
